@@ -213,3 +213,11 @@ PROPS['C13'] = dict(
     kinds={'panic', 'warcinfo-rule', 'fit-rule', 'bad-name', 'open-file-left', 'callback-args', 'unreadable-file'},
     rule='TODO', level_text='TODO', level_note='TODO',
 )
+
+PROPS['C20'] = dict(
+    id='C20', domains=['rev'],
+    n=dict(quick=dict(rev=1500), thorough=dict(rev=60000)),
+    theorems=[('Properties.C20', [])],
+    kinds={'panic', 'revisit-untruthful', 'revisit-roundtrip', 'merge-wrong', 'type-disagrees'},
+    rule='TODO', level_text='TODO', level_note='TODO',
+)
